@@ -438,6 +438,127 @@ PROPS["C20"] = dict(
     or (e.get("cfg", {}).get("kind") in ("rr", "rri", "ch")),
 )
 
+
+# ------------------------------------------------------------------ wire (Wire.tla): C15, C16, C07
+LENS = {"LensA": [1, 2, 0], "LensB": [2, 1], "LensC": [0, 3, 1], "LensD": [1, 1, 1, 2]}
+C2S_BY_LEN = {0: "req-empty", 1: "req", 2: "req-unicode", 3: "req-large"}
+S2C_BY_LEN = {0: "resp-idmax", 1: "resp", 2: "resp-unicode", 3: "resp-large"}
+
+
+def wire_to_sched(g, consts):
+    import hashlib
+    steps = g["steps"]
+    ws = [s["n"] for s in steps if s["a"] == "w"]
+    rs = [s["n"] for s in steps if s["a"] == "r"]
+    h = int(hashlib.sha1(repr(steps).encode()).hexdigest(), 16)
+    codec = ["json", "bincode"][h % 2]
+    d = ["c2s", "s2c"][(h // 2) % 2]
+    lens = LENS[consts["MsgLens"][2:].strip()]
+    table = C2S_BY_LEN if d == "c2s" else S2C_BY_LEN
+    cfg = {"kind": "rt", "codec": codec, "dir": d, "msgs": [table[l] for l in lens], "rscript": rs, "wscript": ws,
+           "transit": [0, 0, 3][(h // 4) % 3], "close": ["drop", "close"][(h // 12) % 2]}
+    return dict(cfg=cfg, steps=[], tags=(codec, d))
+
+
+def wire_fixed(kinds):
+    def f(tier):
+        out = []
+        if "kinds" in kinds:
+            out += [dict(id="fixed:kinds:%s" % c, cfg={"kind": "kinds", "codec": c}, steps=[]) for c in ("json", "bincode")]
+        if "omit" in kinds:
+            out.append(dict(id="fixed:omit", cfg={"kind": "omit", "codec": "json"}, steps=[]))
+        if "mem" in kinds:
+            for codec in ("mem-unbounded", "mem-bounded"):
+                for d in ("c2s", "s2c"):
+                    for close in ("drop", "close", "keep"):
+                        msgs = (["req", "req-idmax", "cancel", "req-unicode", "req-large", "req-past"] if d == "c2s"
+                                else ["resp", "err:NotFound", "err:OutOfMemory", "resp-large", "resp-idmax"])
+                        out.append(dict(id="fixed:%s:%s:%s" % (codec, d, close),
+                                        cfg={"kind": "rt", "codec": codec, "dir": d, "msgs": msgs, "rscript": [], "wscript": [],
+                                             "transit": 0, "close": close, "cap": 1}, steps=[]))
+        if "live" in kinds:
+            items = ["req", "req-idmax", "req-past", "dup", "cancel-unknown", "cancel-idmax", "dl-3y", "dl-10y", "dl-100y",
+                     "dl-10000y", "dl-u64max", "dl-i64max", "dl-2p36ms", "garbage", "truncated", "hugelen"]
+            for codec in ("json", "bincode"):
+                for it in items:
+                    out.append(dict(id="fixed:live:%s:%s" % (codec, it), cfg={"kind": "live", "codec": codec, "items": [it]}, steps=[]))
+                out.append(dict(id="fixed:live:%s:flood" % codec, cfg={"kind": "live", "codec": codec, "items": ["req"] + ["dup"] * 30}, steps=[]))
+            for c in ("1m", "3y", "10y", "100y", "10000y", "2p36ms"):
+                out.append(dict(id="fixed:clientdl:%s" % c, cfg={"kind": "clientdl", "dl_class": c}, steps=[]))
+        if "transit" in kinds:
+            for codec in ("json", "bincode"):
+                for tr in (0, 1, 7, 5000):
+                    out.append(dict(id="fixed:transit:%s:%d" % (codec, tr),
+                                    cfg={"kind": "rt", "codec": codec, "dir": "c2s", "msgs": ["req", "req-past", "req-now", "req"],
+                                         "rscript": [3, 0, 100], "wscript": [5, 0], "transit": tr, "close": "drop"}, steps=[]))
+        return out
+    return f
+
+
+def wire_export(name, lens, **over):
+    return dict(module="MC_Wire", name=name,
+                constants=dict(MsgLens="<-" + lens, MaxChunk=3, PendingBudget=2, ExportSched=True, FixF2=True, **over),
+                quick={}, thorough={}, to_sched=wire_to_sched, cap_quick=1500, cap_thorough=20000, timeout=600,
+                simulate_quick=1500, simulate_thorough=20000)
+
+
+def wire_model(name, lens, **over):
+    return dict(module="MC_Wire", name=name, constants=dict(MsgLens="<-" + lens, MaxChunk=3, PendingBudget=2, ExportSched=False, FixF2=True, **over),
+                quick={}, thorough=dict(PendingBudget=3), invariants=["Inv_Prefix", "Inv_Eos", "Inv_NoGarbage", "KindsBincodeOK"], coverage=False)
+
+
+def wire_family(kinds_fixed, kinds_random, rq, rt, exports, sub=None):
+    opts = {"kinds": kinds_random}
+    if sub:
+        opts["sub"] = sub
+    return dict(family="wire", trace_module="Trace_Wire", random_quick=rq, random_thorough=rt, fixed=wire_fixed(kinds_fixed),
+                exports=exports, opts=opts, tag="wire-" + (sub or "none"))
+
+
+WIRE_ASSUME = ["byte stream = in-process pipe with scripted partial reads / partial writes / Pending results",
+               "message values are the concretisation of Wire.tla's length classes (ids 0 / 2^32 / 2^64-1, empty / unicode / 70 kB bodies, "
+               "all io::ErrorKind variants by name); arbitrary byte-exact fidelity is the serializers' job and is sampled",
+               "frames above LengthDelimitedCodec's 8 MiB default are out of scope"]
+
+PROPS["C15"] = dict(
+    level="exploration", verdict="Verdict_C15",
+    rule=("round trips of message sequences over the serde transport (JSON, bincode) with every chunking of Wire.tla's behaviours (reads/writes of 1-3 bytes "
+          "or Pending) and seeded random chunk scripts, over both in-memory channels with drop / close / keep-open endings, the full error-kind table under "
+          "both codecs, and hand-built JSON omitting optional fields; non-trivial = at least one message written; distinct by cfg"),
+    assumptions=WIRE_ASSUME,
+    models=[wire_model("framing-A", "LensA"), wire_model("framing-C", "LensC")],
+    families=[wire_family({"kinds", "omit", "mem"}, "rt", 1500, 30000,
+                          [wire_export("A", "LensA"), wire_export("B", "LensB"), wire_export("C", "LensC")])],
+    relevant=lambda e: e.get("cfg", {}).get("kind") in ("kinds", "omit") or len(e.get("cfg", {}).get("msgs", [])) > 0,
+)
+PROPS["C16"] = dict(
+    level="exploration", verdict="Verdict_C16",
+    rule=("peer-supplied input: seeded random byte strings, mutations and truncations of valid encodings fed to the four framed decoders; boundary-valued "
+          "well-typed messages (ids 0/2^64-1, deadlines 3 y / 10 y / 100 y / 10000 y / u64::MAX s / i64::MAX s / just above the timer range, cancels and "
+          "duplicates for unknown ids, duplicate floods) sent to a live BaseChannel->Requests over the serde transport followed by a probe request that must "
+          "be served; caller-chosen extreme deadlines through the client dispatch; each with no subscriber, a formatting subscriber and an OpenTelemetry "
+          "layer; distinct by cfg; non-trivial = any"),
+    assumptions=WIRE_ASSUME + ["TLA+ contributes the message classes and their sequencing with valid traffic; the decoder's behaviour on specific byte strings is seeded sampling",
+                               "one harness process per subscriber configuration (a global subscriber can be installed once)"],
+    models=[wire_model("framing-A", "LensA")],
+    families=[wire_family({"live"}, "garbage,live,clientdl", 1200, 20000, [], sub=None),
+              wire_family({"live"}, "live,clientdl", 600, 8000, [], sub="fmt"),
+              wire_family({"live"}, "live,clientdl", 600, 8000, [], sub="otel")],
+    relevant=lambda e: True,
+)
+PROPS["C07"] = dict(
+    level="exploration", verdict="Verdict_C07",
+    rule=("requests with remaining time past / zero / 5 s crossing one hop over JSON and bincode (deadline encoded as remaining time) with transit delays "
+          "0 / 1 / 3 / 7 / 5000 ms of virtual time between encode and decode, over the in-memory transports (deadline unchanged), and a JSON request without "
+          "deadline (10 s default); chunkings from Wire.tla; non-trivial = a request message present; distinct by cfg"),
+    assumptions=WIRE_ASSUME + ["multi-hop chains are covered by the model's ChainLaw (composition of single hops) and by single-hop executions; a real 2-3 hop "
+                               "chain through handler contexts is not executed by this check",
+                               "virtual clock via hook H4: encode and decode times are exact"],
+    models=[wire_model("framing-B", "LensB")],
+    families=[wire_family({"omit", "transit", "mem"}, "rt", 1200, 20000, [wire_export("B", "LensB")])],
+    relevant=lambda e: e.get("cfg", {}).get("kind") == "omit" or any(m.startswith("req") for m in e.get("cfg", {}).get("msgs", [])),
+)
+
 # ------------------------------------------------------------------ manifest texts
 def _mt(spec, what, design, note_extra=""):
     return dict(
@@ -485,6 +606,34 @@ MANIFEST_TEXT = {
         design_ref="DESIGN.md section 6, C20",
         note="Thread interleavings of the real code are whatever the OS produces; the exhaustive interleaving argument is on the model. Trusted: TLC, the harness's recording stubs.",
         technique="TLA+ model checking (TLC) + enumerated/threaded execution + TLC trace validation with linearisation search",
+    ),
+    "C15": dict(
+        text=("Wire.tla models length-delimited framing over a byte stream that fragments reads and writes arbitrarily (every chunking of 1-3 byte moves "
+              "and Pending results for 2-4 short messages is explored by TLC: delivered is a prefix of sent, complete at end-of-stream) and the error-kind "
+              "table of both codecs. The explored chunk scripts are replayed on the real serde transport (JSON and bincode) over a scripted byte pipe with "
+              "concrete messages of every class, the in-memory channels run the same sequences with drop/close/keep endings, and TLC compares every item "
+              "read with the item written (Trace_Wire)."),
+        design_ref="DESIGN.md section 6, C15",
+        note="Exploration level: the model is exhaustive for tiny messages; concrete values are a chosen set of classes plus seeded random scripts. Byte-exact fidelity of arbitrary payloads is serde's.",
+        technique="TLA+ framing model (TLC) + replay of its chunk schedules on the real transports + TLC trace validation",
+    ),
+    "C16": dict(
+        text=("Message classes with boundary-valued fields and malformed frames (the concretisation of Wire.tla's classes) are sent into the real decoders, "
+              "into a live server channel followed by a probe request, and through the client dispatch, under three tracing-subscriber configurations; "
+              "TLC judges the recorded traces: no panic anywhere, malformed frames end the connection with an error, well-formed odd traffic leaves the "
+              "connection serving."),
+        design_ref="DESIGN.md section 6, C16",
+        note="Exploration level: boundary classes are enumerated, byte-level garbage is seeded sampling. The specification contributes classes and sequencing, not decoder internals.",
+        technique="class enumeration from the TLA+ wire model + seeded mutation + TLC trace validation",
+    ),
+    "C07": dict(
+        text=("Wire.tla states the re-basing of deadlines as remaining time (Rebase) and proves by TLC's evaluation of RebaseLaw/ChainLaw over a small time "
+              "domain that one hop shifts a deadline by at most the transit time and never earlier, a passed deadline arrives as 'now', and three hops "
+              "accumulate at most the summed transit. Real requests are sent through JSON, bincode and the in-memory transports with virtual transit "
+              "delays and TLC checks each observed deadline against Rebase; a JSON request without deadline must decode to now + 10 s."),
+        design_ref="DESIGN.md section 6, C07",
+        note="Exploration level: single hops are executed; multi-hop composition is established on the model only.",
+        technique="TLA+ arithmetic law checked by TLC + single-hop executions under a virtual clock + TLC trace validation",
     ),
     "C12": _mt("Server.tla with MaxRequests L in {0,1,2}", "Inv_C12 on ObsServer (yield only with fewer than L others tracked at the read instant; refusal only with at least L others; each refusal answered once with WouldBlock and never executed).", "DESIGN.md section 6, C12", "Carries known finding F7 by signature."),
 }
